@@ -385,10 +385,11 @@ def apply_edit(ds: xr.Dataset, built: G.Built, state: dict, e: dict) -> xr.Datas
         else:
             raise ValueError(how)
         new = vals.reshape(nshape)
-        if state['conv'] == 'ugrid' and how == 'reverse' and name in _ugrid_role_names(ds, state).values():
-            # a transposed connectivity table changes which dimension Mesh2DTopology INFERS as the face / edge
-            # dimension when the mesh does not declare it; validity of the optional tables is then C10's
-            # business and unknown to this generator: the oracle still judges the case, the model is not asked
+        if state['conv'] == 'ugrid' and name in _ugrid_role_names(ds, state).values():
+            # a connectivity table with other dimensions changes which dimensions Mesh2DTopology INFERS as the
+            # face / edge dimension when the mesh does not declare them; the validity of the optional tables is
+            # then C10's business and unknown to this generator: the oracle still judges the case (the key must
+            # change), the model is not asked for the stream
             state['uncertain'] = True
         for role, rname in _ugrid_role_names(ds, state).items():
             # Mesh2DTopology.has_valid_* compare the SET of dimensions: a transposed table stays valid
